@@ -568,7 +568,7 @@ class SymEval:
             finally:
                 self.use_heap = True
             if is_heap_path(base) and base[0] in ("attr", "sub") and base != SELF and n.func.attr in (
-                    "append", "extend", "insert", "remove", "pop", "clear", "put", "get", "copy"):
+                    "append", "extend", "insert", "remove", "pop", "clear", "put", "get", "copy", "update"):
                 f = ("attr", base, n.func.attr)
             else:
                 f = self.expr(n.func)
@@ -606,6 +606,19 @@ class SymEval:
                     return v
             return args[1] if len(args) == 2 else ("c", None)
         s = ("call", f, args, kwargs)
+        # entry.update(k=v, ...) / entry.update({...}) on a stored dict: the same as the individual subscript stores, in order
+        if f[0] == "attr" and f[2] == "update" and is_heap_path(f[1]) and f[1][0] in ("sub", "attr") and f[1] != SELF and \
+                root_field(f[1]) in TABLE_FIELDS and len(args) <= 1 and all(k != "**" for k, _ in kwargs) and \
+                (not args or (args[0][0] == "dict" and all(is_const(k) for k, _ in args[0][1]))):
+            pairs = (list(args[0][1]) if args else []) + [(("c", k), v) for k, v in kwargs]
+            for k, v in pairs:
+                tgt = ("sub", f[1], k)
+                self.effects.append(Eff("store", tgt, v, n))
+                if self.use_heap:
+                    for hk in [hk for hk in self.heap if hk != tgt and contains(hk, tgt)]:
+                        self.heap.pop(hk, None)
+                    self.heap[tgt] = v
+            return ("c", None)
         # keyed access to a session table spelt with dict methods: same access path as T[k]
         if f[0] == "attr" and f[2] in ("get", "pop") and f[1][0] == "attr" and f[1][1] == SELF and f[1][2] in TABLE_FIELDS \
                 and 1 <= len(args) <= 2 and not kwargs:
